@@ -41,7 +41,7 @@ ASSUMPTIONS = ["objects are those reachable from the store root of repositories 
                "a loader's dereferences of an object are observed as the chunk reads, among the object's own address fields, made by the real "
                "loader functions listed in harness/c09/c09.go"]
 REQUIRED_TAGS = ["ws-merge-state", "ws-rebase-state", "ws-pending", "ws-prehead", "staged-differs", "commit-two-parents", "commit-closure",
-                 "table-artifacts", "table-secondary", "prim-children", "value-addrs", "stash", "tag", "fk", "scn-revert_foreign"]
+                 "table-artifacts", "table-secondary", "prim-children", "value-addrs", "stash", "tag", "fk", "scn-revert_foreign", "adaptive-out-of-band-small-value"]
 HARNESS_TIMEOUT = 1500
 COQ_SHARD = 40
 
@@ -56,12 +56,15 @@ def gen_cases(rng, tier):
     cases.append({"scn": "revert", "pending": True, "rows": 3})
     cases.append({"scn": "rebase_conflict", "rows": 3, "staged": True, "unstaged": True})
     cases.append({"scn": "revert_foreign", "rows": 3, "commitc": True})      # witness of the ConflictMetadata.bc finding
+    cases.append({"scn": "plain", "rows": 3, "wide": True})                   # wide rows: short out-of-band adaptive values
+    cases.append({"scn": "merge", "rows": 5, "wide": True, "idx": True})
     cases.append({"scn": "plain", "rows": 1500, "idx": True, "blob": True, "fk": True, "tag": True, "stash": True, "staged": True, "unstaged": True})
     for scn in SCNS:
         for _ in range(per):
             c = {"scn": scn, "rows": rng.choice([3, 5, 30, 30, 400, 1500])}
             for k in ("staged", "unstaged", "tag", "stash", "fk", "idx", "blob"):
                 c[k] = rng.random() < 0.5
+            c["wide"] = rng.random() < 0.25
             if scn == "revert":
                 c["pending"] = rng.random() < 0.6
             if scn == "revert_foreign":
@@ -149,6 +152,8 @@ def classify(case, out):
         t.append("stray-reads")
     if o.get("stray_base"):
         t.append("conflict-base-outside-closure")
+    if o.get("small_oob"):
+        t.append("adaptive-out-of-band-small-value")
     for x in o["objs"]:
         m = x["msg"]
         k = m["k"]
@@ -197,7 +202,7 @@ def nontrivial(case, out):
 
 
 def shrink_candidates(case):
-    for k in ("staged", "unstaged", "tag", "stash", "fk", "idx", "blob", "pending"):
+    for k in ("staged", "unstaged", "tag", "stash", "fk", "idx", "blob", "pending", "wide"):
         if case.get(k):
             c = dict(case)
             c[k] = False
